@@ -1868,7 +1868,15 @@ class ITEIntroMacro(Macro):
         for t in ites:
             P, x, y = t.args
             ite_intros.append(logic.mk_if(P, Eq(x, t), Eq(y, t)))
-        expected_ites = rhs.strip_conj()[1:]
+        # The right side is the left side (up to symmetry of equalities),
+        # followed by facts about the ite terms on the left.
+        if len(ites) == 0 or not rhs.is_conj():
+            if compare_sym_tm(lhs, rhs):
+                return Thm(arg)
+            raise VeriTException("ite_intro", "right side does not start with left side")
+        if not compare_sym_tm(lhs, rhs.arg1):
+            raise VeriTException("ite_intro", "right side does not start with left side")
+        expected_ites = rhs.arg.strip_conj()
 
         # Sometimes the expected result has fewer conjuncts
         expected_set = set(expected_ites)
